@@ -440,7 +440,11 @@ impl FaceModify {
             face.bg = Some(bg);
         }
         if let Some(underline) = self.underline {
-            face.attrs |= underline.into();
+            // replace underline style (`|=` ORs packed style bits together)
+            face.attrs = face
+                .attrs
+                .remove(FaceAttrs::UNDERLINE)
+                .insert(underline.into());
         }
         // TODO: underline_color
         for (update, flag) in [
